@@ -516,7 +516,14 @@ REGRESSION_SCENES = [
       np.array([5.175783394342907, 0.6909119916861448])),
      ("MeshGraph", np.array([[-0.10966894913031311, 0.6324592283517531, -0.7667907446424727, 19.28351920246887], [-0.6628226925221764, 0.5283434976440056, 0.5305838546120218, 4.759683153429734], [0.7407015592492736, 0.5664348797258196, 0.36126545248015485, -28.008247653780774], [0.0, 0.0, 0.0, 1.0]]),
       np.array([[-3.78512628971234, -16.601875570384927, 16.88597561025981], [-9.607604402191436, -17.408859556673708, 12.501779876495267], [-0.7345686878099724, -13.801944192192568, -21.587406053314755], [-24.40967886124935, 11.66998012168632, 1.4264037689047169], [10.395744034613372, -14.241016995489666, 18.402034053525597], [-23.97498950318238, 11.830048091421386, -3.8468143259886034], [21.494978728017855, 0.7137184386945459, -19.939179490073027], [26.673365097695786, 8.183461355926632, -5.239724659398261]]),
-      np.array([[4, 7, 3], [4, 2, 1], [6, 4, 7], [6, 4, 2], [0, 1, 3], [0, 4, 3], [0, 4, 1], [5, 6, 2], [5, 1, 3], [5, 2, 1], [5, 7, 3], [5, 6, 7]], dtype=int)), False),
+      np.array([[4, 7, 3], [4, 2, 1], [6, 4, 7], [6, 4, 2], [0, 1, 3], [0, 4, 3], [0, 4, 1], [5, 6, 2], [5, 1, 3], [5, 2, 1], [5, 7, 3], [5, 6, 7]], dtype=int)), False),    # mpr_penetration returned position = [nan, nan, nan] before repair 045c18e (found by the thorough C08 search): exactly
+    # touching box / 4-vertex mesh; _discover_portal runs into its iteration cap (100 passes) and leaves a portal with a
+    # repeated vertex, both barycentric weight sums of _contact_position vanish -> 0/0 (F-mpr-degenerate-portal-nan)
+    ("regression:F-mpr-degenerate-portal-nan",
+     ("Box", np.array([[0.9639938490441047, -0.2548393455649372, 0.07597872700411926, 0.0], [-0.25563271992775277, -0.9667736868329475, 0.0007422599072390498, 0.0], [0.07326507699764648, -0.02013818262568169, -0.9971091625760262, 0.0], [0.0, 0.0, 0.0, 1.0]]), np.array([0.07597102087503584, 0.033133629372878046, 0.04656290193520898])),
+     ("MeshGraph", np.array([[0.6983645544100368, 0.6382316045719925, 0.3239558119082457, 0.214889105801495], [-0.46904793457305294, 0.06621869929583912, 0.8806867314410503, -0.03161156852092972], [0.5406301732389933, -0.7669912012461599, 0.34560600833108945, -0.16198327630606535], [0.0, 0.0, 0.0, 1.0]]),
+      np.array([[-0.13976063647222456, 0.0012673518799645475, 0.15453231058425626], [-0.1866220073105435, -0.10435528999031593, 0.21304289873168133], [-0.038754085013119804, -0.25413833134607755, 0.041503401495859196], [0.2558050476495335, 0.020557058567527004, -0.10488471710539338]]),
+      np.array([[2, 3, 1], [0, 1, 3], [0, 2, 1], [0, 3, 2]], dtype=int)), False),
 ]
 
 
